@@ -17,6 +17,8 @@
 
 #include <nix/Platform.hpp>
 
+#include <stdexcept>
+
 namespace nix {
 
 class NIXAPI DataSet {
@@ -88,6 +90,13 @@ void DataSet::setData(const T &value)
 
     DataType dtype = hydra.element_data_type();
     NDSize shape = hydra.shape();
+
+    // The data set takes the shape of the value before the value is written:
+    // refuse values that cannot be stored in it while nothing has been resized yet.
+    const DataType stored = dataType();
+    if (stored != dtype && !(data_type_is_numeric(stored) && data_type_is_numeric(dtype))) {
+        throw std::invalid_argument("setData: element type of the value cannot be converted to the element type of the data set");
+    }
 
     dataExtent(shape);
     setData(dtype, hydra.data(), shape, {});
